@@ -178,9 +178,13 @@ MixedUnions == { TUnion(<<TInt, TEnum("ES")>>), TUnion(<<TEnum("EI"), TStr>>), T
 NestedUnionTypes == { TColl("list", t) : t \in MixedUnions } \cup { TMap(TStr, t) : t \in MixedUnions }
                     \cup { TColl("vtuple", t) : t \in MixedUnions } \cup { TOpt(TColl("list", t)) : t \in MixedUnions }
 
+\* nullable structured types (their schema has a type LIST next to structural keywords)
+OptStructured == { TOpt(TTuple(<<TInt, TStr>>)), TOpt(TColl("list", TInt)), TOpt(TMap(TStr, TInt)), TOpt(TObj("P2")),
+                   TOpt(TColl("set", TStr)), TUnion(<<TTuple(<<TBool>>), TStr, TNone>>) }
+
 TypesD0 == Leaves
 TypesD1 == { t \in UNION { Ctor1(t) : t \in Leaves } \cup SetTypes \cup MapTypes \cup ObjTypes \cup UnionTypes
-                    \cup NestedUnionTypes
+                    \cup NestedUnionTypes \cup OptStructured
                     \cup DUnionTypes \cup { TColl("list", t) : t \in DUnionTypes } : WF(t) }
 \* depth 2: constructors over a sample of depth-1 types
 D1Sample == { TColl("list", TInt), TOpt(TStr), TMap(TStr, TInt), TTuple(<<TInt, TStr>>), TObj("P2"),
